@@ -11,6 +11,7 @@ func init() {
 	rt.Register("C15_SetStep", C15_SetStep)
 	rt.Register("C15_MapStep", C15_MapStep)
 	rt.Register("C15_History", C15_History)
+	rt.Register("C15_Large", C15_Large)
 }
 
 // ---- specification model: sorted duplicate-free list / association list ----
@@ -344,5 +345,92 @@ func C15_History() {
 		for _, mv := range maps {
 			checkMap(mv.im, mv.m, "history-map")
 		}
+	}
+}
+
+// C15_Large: the same operations on values with many elements: a concrete
+// base set {10,20,..,10B} (built through NewIntSet and a chain of Inserts in
+// scrambled order) and a base map with B keys, operands symbolic.
+func C15_Large() {
+	B := rt.Param("B", 24)
+	var vals []int
+	for i := 0; i < B; i++ {
+		vals = append(vals, 10*(1+(i*7)%B))
+	}
+	var m []int
+	half := data.NewIntSet(vals[:B/2]...)
+	for _, v := range vals[:B/2] {
+		m = specInsert(m, v)
+	}
+	s := half
+	for _, v := range vals[B/2:] {
+		s = s.Insert(v)
+		m = specInsert(m, v)
+	}
+	checkSet(s, m, "large-constructed")
+	if len(m) > 16 {
+		rt.Cover("set with more than 16 elements")
+	}
+	switch rt.Choose("op", 4) {
+	case 0: // Insert of a symbolic value anywhere in, between or outside the elements
+		v := rt.Int("v")
+		r := s.Insert(v)
+		checkSet(r, specInsert(m, v), "large-insert-result")
+		checkSet(s, m, "large-insert-receiver-unchanged")
+		w := rt.Int("w")
+		r2 := s.Insert(w)
+		checkSet(r2, specInsert(m, w), "large-insert-second-result")
+		checkSet(r, specInsert(m, v), "large-insert-first-result-unchanged")
+	case 1: // Union with another large set containing a symbolic element
+		var mt []int
+		t := data.NewIntSet()
+		for i := 0; i < B; i += 2 {
+			t = t.Insert(10*i + 5)
+			mt = specInsert(mt, 10*i+5)
+		}
+		x := rt.Int("x")
+		t = t.Insert(x)
+		mt = specInsert(mt, x)
+		r := s.Union(t)
+		checkSet(r, specUnion(m, mt), "large-union-result")
+		checkSet(s, m, "large-union-receiver-unchanged")
+		checkSet(t, mt, "large-union-argument-unchanged")
+		r2 := t.Union(s)
+		checkSet(r2, specUnion(mt, m), "large-union-commuted")
+	case 2: // map with B keys: Inc of a symbolic key, twice
+		var mm []kv
+		im := data.NewIntMap(nil)
+		for _, v := range vals {
+			im = im.Inc(v)
+			mm = specInc(mm, v)
+			if v%20 == 0 {
+				im = im.Inc(v)
+				mm = specInc(mm, v)
+			}
+		}
+		checkMap(im, mm, "large-map-constructed")
+		k := rt.Int("k")
+		r := im.Inc(k)
+		checkMap(r, specInc(mm, k), "large-inc-result")
+		checkMap(im, mm, "large-inc-receiver-unchanged")
+		want, ok := specGet(mm, k)
+		if !ok {
+			want = 0
+		}
+		rt.Assert(im.Get(k) == want, "large-get")
+	case 3: // Filter of the large map by the large set plus a symbolic key
+		var mm []kv
+		im := data.NewIntMap(nil)
+		for i := 0; i < B; i++ {
+			im = im.Inc(5 * i)
+			mm = specInc(mm, 5*i)
+		}
+		y := rt.Int("y")
+		f := s.Insert(y)
+		mf := specInsert(m, y)
+		r := im.Filter(f)
+		checkMap(r, specFilter(mm, mf), "large-filter-result")
+		checkMap(im, mm, "large-filter-receiver-unchanged")
+		checkSet(f, mf, "large-filter-argument-unchanged")
 	}
 }
